@@ -646,43 +646,87 @@ func freeVarOrAllocLoad(v ssa.Value) (ssa.Value, bool) {
 }
 
 func (c *Ctx) ruleR10e(rule string) {
-	c.R.Rule(rule, "parsley.Parse replaces the returned error by the context's furthest error only behind the false edge of IsWhitespaceError(the returned error)", 1)
-	fn := c.P.Func("parsley.Parse")
-	if fn == nil {
+	c.R.Rule(rule, "parsley.Parse (and the helpers it delegates to) replaces the returned error by the context's furthest error only behind the false edge of IsWhitespaceError(the returned error)", 1)
+	root := c.P.Func("parsley.Parse")
+	if root == nil {
 		c.R.Fail("coverage-lost", rule, "parsley.Parse", "-", "-", "parsley.Parse not found")
 		return
 	}
-	// the replacement: a phi of Error type one of whose edges is the result of ctx.Error(), used as the reported error
-	n := 0
-	for _, b := range fn.Blocks {
-		for _, in := range b.Instrs {
-			ph, ok := in.(*ssa.Phi)
-			if !ok || !isErrorType(ph.Type()) {
+	// Parse and the library helpers it statically calls (an extracted furthestError(...) must not hide the rule's anchor)
+	scope := []*ssa.Function{root}
+	seenFn := map[*ssa.Function]bool{root: true}
+	for i := 0; i < len(scope) && i < 40; i++ {
+		for _, call := range ssax.Calls(scope[i]) {
+			sc := call.Common().StaticCallee()
+			if sc == nil || seenFn[sc] || !c.P.InLib(sc) || sc.Pkg != root.Pkg || ssax.IsParserSig(sc.Signature) {
 				continue
 			}
-			for i, e := range ph.Edges {
-				cl, ok := e.(*ssa.Call)
-				if !ok || cl.Call.StaticCallee() == nil || cl.Call.StaticCallee().Name() != "Error" {
-					continue
+			// only helpers that deal in errors
+			hasErr := false
+			for _, p := range sc.Params {
+				if isErrorType(p.Type()) {
+					hasErr = true
 				}
-				// which other edge values does it replace?
-				var replaced []ssa.Value
-				for j, o := range ph.Edges {
-					if j != i && o != e {
-						replaced = append(replaced, o)
+			}
+			if hasErr && sc.Signature.Results().Len() == 1 && isErrorType(sc.Signature.Results().At(0).Type()) {
+				seenFn[sc] = true
+				scope = append(scope, sc)
+			}
+		}
+	}
+	n := 0
+	for _, fn := range scope {
+		for _, call := range ssax.Calls(fn) {
+			cl, ok := call.(*ssa.Call)
+			if !ok || cl.Call.StaticCallee() == nil || cl.Call.StaticCallee().Name() != "Error" || cl.Call.StaticCallee().Signature.Recv() == nil {
+				continue
+			}
+			if !ssax.PtrNamedIs(cl.Call.StaticCallee().Signature.Recv().Type(), "parsley", "Context") {
+				continue
+			}
+			// uses of the context error as a replacement
+			type use struct {
+				blk      *ssa.BasicBlock
+				replaced []ssa.Value
+			}
+			var uses []use
+			if cl.Referrers() != nil {
+				for _, r := range *cl.Referrers() {
+					switch x := r.(type) {
+					case *ssa.Phi:
+						var others []ssa.Value
+						idx := -1
+						for i, e := range x.Edges {
+							if e == ssa.Value(cl) {
+								idx = i
+							} else if !ssax.IsNilConst(e) {
+								others = append(others, e)
+							}
+						}
+						if idx >= 0 && len(others) > 0 {
+							uses = append(uses, use{x.Block().Preds[idx], others})
+						}
+					case *ssa.Return:
+						var others []ssa.Value
+						for _, r2 := range ssax.Returns(fn) {
+							if r2 != x && len(r2.Results) == 1 {
+								if p, isP := ssax.Strip(r2.Results[0]).(*ssa.Parameter); isP {
+									others = append(others, p)
+								}
+							}
+						}
+						if len(others) > 0 {
+							uses = append(uses, use{x.Block(), others})
+						}
 					}
 				}
-				if len(replaced) == 0 {
-					continue
-				}
-				pred := b.Preds[i]
-				// only replacements that override an error obtained from the root parser (not the nil-node fallback)
-				guard := false
-				isOverride := false
-				for _, cd := range ssax.DominatingConds(pred) {
+			}
+			for _, u := range uses {
+				guard, isOverride := false, false
+				for _, cd := range ssax.DominatingConds(u.blk) {
 					if k, ok := cd.Val.(*ssa.Call); ok && k.Call.StaticCallee() != nil && k.Call.StaticCallee().Name() == "IsWhitespaceError" {
 						arg := ssax.Strip(k.Call.Args[0])
-						for _, rv := range replaced {
+						for _, rv := range u.replaced {
 							if arg == ssax.Strip(rv) && !cd.Truth {
 								guard = true
 							}
@@ -694,18 +738,18 @@ func (c *Ctx) ruleR10e(rule string) {
 					}
 				}
 				if !isOverride {
-					continue
+					continue // e.g. the fallback used when the root parser returned neither a node nor an error
 				}
 				n++
 				if guard {
-					c.R.Hold(rule, "parsley.Parse override @"+c.P.InstrPos(cl), "behind !IsWhitespaceError(err) of the error being replaced")
+					c.R.Hold(rule, c.name(fn)+" override @"+c.P.InstrPos(cl), "behind !IsWhitespaceError(err) of the error being replaced")
 				} else {
-					c.R.Violation(rule, "parsley.Parse overrides whitespace error", "parsley.Parse", c.P.InstrPos(cl), "the returned error is replaced by the context's furthest error without the false edge of IsWhitespaceError(<that returned error>): a whitespace-mode violation is masked by a later not-found error")
+					c.R.Violation(rule, c.name(fn)+" overrides whitespace error", c.name(fn), c.P.InstrPos(cl), "the returned error is replaced by the context's furthest error without the false edge of IsWhitespaceError(<that returned error>): a whitespace-mode violation is masked by a later not-found error")
 				}
 			}
 		}
 	}
 	if n == 0 {
-		c.R.Fail("coverage-lost", rule, "parsley.Parse override", "-", "-", "the furthest-error override in parsley.Parse was not recognised")
+		c.R.Fail("coverage-lost", rule, "parsley.Parse override", "-", "-", "the furthest-error override of parsley.Parse was not recognised in Parse or its helpers")
 	}
 }
